@@ -243,6 +243,19 @@ fn stop_class<E>(r: &Reason<E>) -> (String, String) {
     }
 }
 
+/// canonical string of the properties of a PUBLISH as a handler sees them (same format as `in_props`)
+fn props_ev(h: i64, pr: &v5::codec::PublishProperties) -> Ev {
+    let ups: Vec<String> = pr.user_properties.iter().map(|(k, v)| format!("{k}={v}")).collect();
+    let s = |o: &Option<ntex_bytes::ByteString>| o.as_ref().map_or(String::new(), |x| x.to_string());
+    let cd = pr.correlation_data.as_ref().map_or(String::new(), |b| String::from_utf8_lossy(b).to_string());
+    Ev::new("h_props")
+        .s(h)
+        .q(pr.message_expiry_interval.map_or(0, |x| i64::from(x.get())))
+        .r(i64::from(pr.is_utf8_payload))
+        .n(pr.user_properties.len() as i64)
+        .x(format!("{}|{}|{}|{}", s(&pr.content_type), s(&pr.response_topic), cd, ups.join(",")))
+}
+
 /// checksum of a payload piece (sum of the bytes modulo 65521), compared by PayMon with the
 /// closed form for the position pattern
 fn bsum(b: &[u8]) -> i64 {
@@ -393,6 +406,7 @@ async fn pub5r(ctx: Rc<Ctx>, conn: i64, res: i64, p: v5::Publish) -> Result<v5::
             .r(i64::from(p.dup()) * 2 + i64::from(p.retain()) + if res >= 0 { 16 * (res + 1) } else { 0 })
             .x(p.publish_topic().to_string()),
     );
+    ctx.emit(props_ev(h, &p.packet().properties));
     let g = Guard { ctx: ctx.clone(), h, done: Cell::new(false) };
     let out = ctx.outcome(h, ctx.gate_pub.get(), false).await;
     read_payload!(ctx, h, p, out);
@@ -631,6 +645,7 @@ async fn cproto5(
                     .r(i64::from(pk.dup) * 2 + i64::from(pk.retain))
                     .x(pk.topic.to_string()),
             );
+            ctx.emit(props_ev(h, &pk.properties));
             let g = Guard { ctx: ctx.clone(), h, done: Cell::new(false) };
             let out = ctx.outcome(h, ctx.gate_pub.get(), false).await;
             read_payload!(ctx, h, p, out);
@@ -1507,6 +1522,19 @@ pub async fn run_conn(ctx: Rc<Ctx>, cmds: Vec<Value>) {
                                     .r(p.get("dup").and_then(Value::as_i64).unwrap_or(0) * 2
                                         + p.get("retain").and_then(Value::as_i64).unwrap_or(0))
                                     .x(p.get("topic").and_then(Value::as_str).unwrap_or("t")),
+                            );
+                            // what the handler has to see besides topic / flags / size: the fill byte of
+                            // the payload and (MQTT 5) the properties, as one canonical string
+                            let gs = |k: &str| p.get(k).and_then(Value::as_str).unwrap_or("").to_string();
+                            let gn = |k: &str| p.get(k).and_then(Value::as_i64).unwrap_or(0);
+                            let ups: Vec<String> = (0..gn("up")).map(|i| format!("k{i}=v{i}")).collect();
+                            ctx.emit(
+                                Ev::new("in_props")
+                                    .id(p.get("fill").and_then(Value::as_i64).unwrap_or(0x61))
+                                    .q(gn("mei"))
+                                    .r(gn("pfi"))
+                                    .n(gn("up"))
+                                    .x(format!("{}|{}|{}|{}", gs("ct"), gs("rt"), gs("cd"), ups.join(","))),
                             );
                         }
                         "payload" => ctx.emit(Ev::new("in_chunk").n(b.len() as i64)),
